@@ -802,13 +802,13 @@ try
 	    return ss.str ();
 	  } ();
 
+	uint64_t count = 0;
 	try
 	  {
 	    std::unique_ptr <zw_result, zw_deleter> result
 		{zw_query_execute (query.get (), stack.get (),
 				   zw_throw_on_error {})};
 
-	    uint64_t count = 0;
 	    while (auto out = zw_result_next (*result))
 	      {
 		// grep: Exit immediately with zero status if any match
@@ -837,13 +837,6 @@ try
 		else
 		  ++count;
 	      }
-
-	    if (show_count)
-	      {
-		if (with_header)
-		  std::cout << header << ":";
-		std::cout << std::dec << count << std::endl;
-	      }
 	  }
 	catch (std::runtime_error const &e)
 	  {
@@ -854,6 +847,16 @@ try
 	  {
 	    error_message (no_messages, verbosity, errors)
 	      << "dwgrep: " << header << ": Unknown error" << std::endl;
+	  }
+
+	// Show the count of what would otherwise have been printed, also
+	// when an error ended the execution early.  Nothing goes to stdout
+	// with -q.
+	if (show_count && verbosity >= 0)
+	  {
+	    if (with_header)
+	      std::cout << header << ":";
+	    std::cout << std::dec << count << std::endl;
 	  }
 
 	// Bump argument list.
